@@ -659,7 +659,11 @@ fn gen_features(rng: &mut Rng, fc: &FontCase, cx: &mut Ctx) -> Features {
             7 => (1u64 << rng.below(46)) & all,
             _ => rng.u64() & all,
         };
-        let m = FeatureMask::from_bits_truncate(bits);
+        let mut m = FeatureMask::from_bits_truncate(bits);
+        if rng.chance(1, 5) {
+            // the fraction path applies lookups to sub-ranges of the run
+            m |= FeatureMask::FRAC;
+        }
         if m.contains(FeatureMask::FRAC) {
             cx.class("features:mask-frac");
         }
@@ -804,11 +808,13 @@ impl C02 {
         }
         let features = gen_features(rng, fc, cx);
         if let Features::Mask(m) = &features {
-            if m.contains(FeatureMask::FRAC) && rng.chance(1, 2) {
-                let at = rng.below(text.len() + 1);
-                let pat: Vec<char> = rng.pick(&["1/2", "3/45", "12/3", "1/2/3", "/1", "1/"]).chars().collect();
-                for (k, c) in pat.iter().enumerate() {
-                    text.insert(at + k, *c);
+            if m.contains(FeatureMask::FRAC) && rng.chance(2, 3) {
+                for _ in 0..1 + rng.small(2) {
+                    let at = rng.below(text.len() + 1);
+                    let pat: Vec<char> = rng.pick(&["1/2", "3/45", "12/3", "1/2/3", "/1", "1/", "1/2 3/4", "11/22"]).chars().collect();
+                    for (k, c) in pat.iter().enumerate() {
+                        text.insert(at + k, *c);
+                    }
                 }
                 text.truncate(64);
                 cx.class("text:fraction-pattern");
